@@ -230,7 +230,17 @@ func (e *Engine) verifyLemma(lem *Lemma, props []string) *fnResult {
 			res.attachErr = err.Error()
 			return res
 		}
-		guard := and(req2...)
+		// a precondition that does not mention the induction variable is the same formula for v-1:
+		// it is already assumed, so it need not be re-established for the induction hypothesis
+		// (quantified preconditions would otherwise have to be re-proved up to bound-variable names)
+		var need []string
+		for i, r2 := range req2 {
+			if i < len(req) && qvarRe.ReplaceAllString(r2, "!q") == qvarRe.ReplaceAllString(req[i], "!q") {
+				continue
+			}
+			need = append(need, r2)
+		}
+		guard := and(need...)
 		if dec != "" {
 			guard = and(guard, le("0", dec2), lt(dec2, dec))
 		} else {
